@@ -19,7 +19,10 @@ MODEL_CFG = {
     "C06": {"quick": [("MC_q_two.cfg", "ok"), ("MC_two_f3.cfg", "PubAppendOnly")],
             "thorough": [("MC_two.cfg", "ok"), ("MC_two_f3.cfg", "PubAppendOnly")]},
     "C07": {"quick": [("MC_q_dedup.cfg", "ok")], "thorough": [("MC_dedup.cfg", "ok")]},
-    "C08": {"quick": [("MC_q_single.cfg", "ok")], "thorough": [("MC_single.cfg", "ok")]},
+    # C08: the adversary's actions on object storage (MaxTampers > 0); the design without the
+    # authenticated read of the right edge must be refuted (the formulas have teeth)
+    "C08": {"quick": [("MC_q_tamper.cfg", "ok"), ("MC_tamper_noverify.cfg", "LockAppendOnly")],
+            "thorough": [("MC_tamper.cfg", "ok"), ("MC_tamper_noverify.cfg", "LockAppendOnly"), ("MC_single.cfg", "ok")]},
     "C17": {"quick": [("MC_q_pool.cfg", "ok")], "thorough": [("MC_pool.cfg", "ok"), ("MC_live.cfg", "ok")]},
 }
 
